@@ -59,6 +59,9 @@ def r13_1(ctx, prog, crate):
         ok = len(cs) == 1 and const_int(cs[0].args[2]) == want and {z.label() for z in b.prov.op_src(cs[0].args[1])} == {"param:" + b.param_name(2)}
         ctx.check(ok, "R13.1", ["FilterSet::" + fn, "polarity"], "FilterSet::%s inserts with inclusive = %s" % (fn, cs[0].args[2].get("c", {}).get("d") if cs else "?"),
                   b.where(0), detail={"fn": fn, "inclusive": bool(want)})
+        if len(cs) == 1:
+            ctx.check(all(b.dominates(cs[0].bb, r) for r in b.returns), "R13.1", ["FilterSet::" + fn, "every-filter-is-stored"],
+                      "FilterSet::%s can return without storing the filter it was given" % fn, cs[0].line())
     b = prog.body("config::filter::FilterSet::insert_filter", crate)
     if ctx.anchor("R13.1", "FilterSet::insert_filter", 1 if b else 0, 1):
         cs = [c for c in b.live_calls() if c.callee == "util::split_vec::SplitVec::insert"]
@@ -66,6 +69,9 @@ def r13_1(ctx, prog, crate):
             {z.label() for z in b.prov.op_src(cs[0].args[2])} == {"param:" + b.param_name(3)} and \
             {z.label() for z in b.prov.op_src(cs[0].args[0])} == {"param:self.filters"}
         ctx.check(ok, "R13.1", ["insert_filter", "forwards"], "insert_filter does not forward (filter, inclusive) to self.filters.insert", b.where(0))
+        if len(cs) == 1:
+            ctx.check(all(b.dominates(cs[0].bb, r) for r in b.returns), "R13.1", ["insert_filter", "every-filter-is-stored"],
+                      "insert_filter can return without storing the filter it was given (a filter that is dropped no longer excludes or selects the paths it matches)", cs[0].line())
     filter_is_match_rule(ctx, "R13.1", prog, crate)
     # CLI wiring
     b = prog.body("divan::Divan::config_with_args", crate)
